@@ -19,6 +19,14 @@ FRESH = [
     "t = 0; foreach n in Tags { if (n ~= /^[a-c]$|@U@/) { t++; } } return t;",
 ]
 
+# a user-defined function is called and the object's fields are read AFTER it has returned (whatever a call borrows for its
+# duration must not be somebody else's by then)
+AFTER_CALL = [
+    "function f(a) { return a; } x = f(1); return [Name, Count, Active, len(Tags)];",
+    "function g() { return Count; } a = g(); b = Name; c = g(); return [a, b, c, Ratio, Name];",
+    "function h(n) { if (n > 0) { return h(n - 1); } return Name; } t = []; foreach i in [1, 2, 3] { x = h(i); y = Count; z = Name; } return [x, y, z, Active];",
+]
+
 class C11(Prop):
     id = "C11"
     compare_run = True
@@ -45,6 +53,9 @@ class C11(Prop):
         reps = 8 if tier == "thorough" else 1
         # first of all, on a cold process: separate evaluators compiling patterns nobody has compiled yet
         specs.append({"kind": "separate", "scripts": FRESH, "objs": objs, "goroutines": 24, "rounds": 6})
+        specs.append({"kind": "separate", "scripts": AFTER_CALL, "objs": objs, "goroutines": 48, "rounds": 12})
+        specs.append({"kind": "separate", "scripts": AFTER_CALL[:1], "objs": objs, "goroutines": 32, "rounds": 12})
+        specs.append({"kind": "shared", "script": "function f(a) { return a; } x = f(Count); return Count > 3 && len(Name) > 2;", "objs": objs, "goroutines": 16, "rounds": 20})
         for _ in range(reps):
             for n in ns:
                 specs.append({"kind": "separate", "scripts": FRESH, "objs": objs, "goroutines": max(n, len(FRESH) * 2), "rounds": 4})
